@@ -1,8 +1,9 @@
 import Driver.Util
+import Driver.C04
 
-/-! Line-protocol handler for property C14 (stub: replaced when the model exists). -/
+/-! C14 shares the VDR model's handler with C04. -/
 namespace Driver.C14
 
-def handle (_op : String) (_args : List String) : Option String := none
+def handle (op : String) (args : List String) : Option String := Driver.C04.handle op args
 
 end Driver.C14
